@@ -18,7 +18,7 @@ def run_bin(ctx, binary, N, rows, tag):
 def run(ctx):
     # (N, max bookkeepers, max signatures, max outsiders, slack, align) -- see SigHeader.tla
     if not ctx.thorough:
-        confs = [(4, 3, 4, 1, 1, 0), (7, 5, 5, 0, 0, 3)]
+        confs = [(4, 3, 3, 1, 1, 0), (7, 5, 5, 0, 0, 3)]
     else:
         confs = [(4, 4, 4, 1, 0, 0), (4, 5, 5, 1, 0, 3), (7, 6, 6, 0, 0, 3), (7, 5, 5, 1, 0, 3), (10, 7, 7, 0, 0, 2)]
     binary = ctx.go_test_bin("smartcontract/service/native/cross_chain/header_sync/test", harness="b_sig_hsync")
@@ -35,6 +35,8 @@ def run(ctx):
     nexec = nacc = nunsound = cand = 0
     per = {}
     if binary:
+        # 1. probe the thresholds of every configuration, 2. all TLC runs side by side, 3. execute the rows
+        plan = []
         for ci, (N, maxbk, maxsigs, outs, slack, align) in enumerate(confs):
             full = list(range(1, N + 1))
             pobs = run_bin(ctx, binary, N, [{"bk": full[:j], "sigs": [sc.G(k) for k in full[:j]]} for j in range(0, N + 1)], "c33-probe-%d-%d" % (N, ci))
@@ -54,7 +56,11 @@ def run(ctx):
             # candidate that the rows then confirm on the real code
             ccfg = sc.hdr_cfg(N, 0, 0, 0, ml, False, "sync", maxbk, maxsigs, "SyncSound" if ml >= need else "SyncSoundUpTo", True,
                               outs, slack, align)
-            r, rows = sc.run_tlc_rows(ctx, "SigHeader_MC", name, files={name: ccfg})
+            plan.append((ci, N, maxbk, maxsigs, outs, slack, align, ml, need, name, ccfg))
+        tlc = sc.parallel(*[(lambda pl=pl: sc.run_tlc_rows(ctx, "SigHeader_MC", pl[9], files={pl[9]: pl[10]}, workers=max(2, sc.vf.NCPU // max(1, len(plan)))))
+                            for pl in plan]) if plan else []
+        for pl, (r, rows) in zip(plan, tlc):
+            ci, N, maxbk, maxsigs, outs, slack, align, ml, need, name, ccfg = pl
             if not r:
                 continue
             H = sc.hdr_rows(rows)
